@@ -425,6 +425,35 @@ pub fn ntv2_cases(g: &mut Gen, n: usize, be_one_in: usize) {
 }
 
 fn c08_ops(g: &mut Gen, thorough: bool) {
+    // the correction of a point is its own: velocity times the time from the epoch of the frame to the epoch of
+    // the point, whatever the epochs of the points before it (and the inverse of a shift undoes it whatever the
+    // points before it were)
+    for def in ["deformation t_epoch=2000 grids=test.deformation", "deformation raw t_epoch=2010.5 grids=test.deformation", "deformation t_epoch=1995 grids=test.deformation,@null", "gridshift grids=test.datum", "gridshift grids=test_subset.datum,test.datum"] {
+        for n in [2usize, 7, 40] {
+            let set = super::c02::deformation_set(g, n);
+            for dir in ["F", "I"] {
+                let seed = g.rng.next() % 1000000;
+                g.push(format!("S_C02\tplain-new\t{}\t{}\t{}\t{}", crate::wire::escape(def), dir, seed, crate::wire::data_of(&set)), "oracle-each-point-its-own", true);
+            }
+        }
+    }
+    // rough datum shift grids (corrections changing by tens of arc seconds from node to node)
+    for _ in 0..(if thorough { 60 } else { 8 }) {
+        let (rows, cols) = (5usize, 9usize);
+        let (lat_s, lon_w) = (g.rng.range(-40, 50) as f64, g.rng.range(-100, 100) as f64);
+        let values: Vec<f32> = (0..rows * cols * 2).map(|_| g.rng.range(-6000, 6000) as f32 / 100.0).collect();
+        let gr = GGrid { lat_n: lat_s + (rows - 1) as f64, lat_s, lon_w, lon_e: lon_w + (cols - 1) as f64, dlat: 1.0, dlon: 1.0, rows, cols, bands: 2, values, projected: false, fancy: false };
+        let text = gr.gravsoft(&mut g.rng, false);
+        let u = std::f64::consts::PI / 180.0;
+        let q: Vec<(f64, f64, &'static str)> = (0..8).map(|_| ((lon_w + g.rng.uniform(0.6, cols as f64 - 1.6)) * u, (lat_s + g.rng.uniform(0.6, rows as f64 - 1.6)) * u, "inside")).collect();
+        g.push(format!("S_C08R\t{}\t{}", crate::wire::escape(&text), pts(&q)), "oracle-rough-grid-roundtrip", true);
+        let data: Vec<[f64; 4]> = q.iter().map(|p| [p.0, p.1, 10.0, 2000.0]).collect();
+        let grids = vec![("rough.grid".to_string(), "gravsoft".to_string(), crate::wire::escape(&text))];
+        for dir in ["F", "I"] {
+            g.push(super::opg_line(&grids, "gridshift grids=rough.grid", "apply", dir, &crate::wire::data_of(&data)), "model-rough-grid", true);
+        }
+    }
+    let _ = thorough;
     // grid operators over lists of constant-valued grids: first hit, then first within the margin
     for i in 0..(if thorough { 2000 } else { 240 }) {
         let kind = ["gridshift", "deformation", "gridshift", "deformation", "deflection"][i % 5];
